@@ -14,12 +14,36 @@ ENC = z3.Function('phred_encode', z3.StringSort(), z3.StringSort())
 HDR_UNSAFE = ': \t\n\r\x0b\x0c;'
 
 
+FQS = z3.Function('fqSafe_of_raw_qualities', z3.StringSort(), z3.StringSort())
+
+
+def _mentions_quality(term):
+    todo, seen = [term], set()
+    while todo:
+        x = todo.pop()
+        if x.get_id() in seen:
+            continue
+        seen.add(x.get_id())
+        if z3.is_const(x) and x.decl().kind() == z3.Z3_OP_UNINTERPRETED and x.decl().name().startswith('qual'):
+            return True
+        todo.extend(x.children())
+    return False
+
+
 def c02_setup(eng):
     eng.ghost.clear()
     # phred encoding of qualities is C04's codec: opaque here
     eng.loader.call_hooks[QB + 'phredToFastqHeaderSafeQualities'] = \
         lambda e, f, a, k, n: Sym(ENC(a[0].z if isinstance(a[0], Sym) else z3.StringVal(a[0])), STR)
-    eng.loader.call_hooks[QB + 'fqSafe'] = lambda e, f, a, k, n: a[0]
+    # fqSafe (a regular expression that deletes every character outside [a-zA-Z0-9-_]) is the identity on bases and on
+    # header-safe atoms (A7), but NOT on raw phred strings: a value that contains raw quality characters comes back as an
+    # arbitrary (uninterpreted) string, so cleaning a quality string before encoding it is visible to the clauses
+    def fq_safe(e, f, a, k, n):
+        v = a[0]
+        if isinstance(v, Sym) and _mentions_quality(v.z):
+            return Sym(FQS(v.z), STR)
+        return v
+    eng.loader.call_hooks[QB + 'fqSafe'] = fq_safe
     eng.spec_env['ENC'] = Builtin('ENC', lambda e, a, k, n: Sym(ENC(a[0].z if isinstance(a[0], Sym) else z3.StringVal(a[0])), STR))
 
     def lookup(e, obj, *a, **k):
